@@ -242,6 +242,7 @@ pub fn worker_main(check: &mut dyn CheckImpl, args: &[String]) -> ! {
             j["t"] = json!("viol");
             writeln!(o, "{j}").unwrap();
         }
+        writeln!(o, "{}", json!({"t":"hb","unit": u})).unwrap();
         since += 1;
         if since >= 32 {
             since = 0;
@@ -286,6 +287,8 @@ fn parse_viol(v: &Value) -> Viol {
 
 fn run_worker(prop: &str, tier: Tier, seed: u64, from: u64, to: u64, stride: u64, crashfile: &str, timeout_s: u64) -> WorkerOutcome {
     let _ = std::fs::remove_file(crashfile);
+    // no unit of any check takes more than a few seconds; ten minutes without a finished unit is a stall
+    let stall_s: u64 = std::env::var("VERIF_STALL_S").ok().and_then(|s| s.parse().ok()).unwrap_or(600);
     let mut child = Command::new(self_exe())
         .args([
             "worker",
@@ -303,9 +306,27 @@ fn run_worker(prop: &str, tier: Tier, seed: u64, from: u64, to: u64, stride: u64
         .unwrap_or_else(|e| harness_error(&format!("spawn worker: {e}")));
     let mut so = child.stdout.take().unwrap();
     let mut se = child.stderr.take().unwrap();
+    // stdout is read line by line so that the watchdog can tell a stalled worker (no unit finished for
+    // a long time: a stuck schedule, a livelock, a probe that never ends) from a busy one
+    let last_activity = std::sync::Arc::new(AtomicUsize::new(0));
+    let la = last_activity.clone();
     let t1 = std::thread::spawn(move || {
+        use std::io::BufRead;
         let mut s = String::new();
-        let _ = std::io::Read::read_to_string(&mut so, &mut s);
+        let mut rd = std::io::BufReader::new(&mut so);
+        let t0 = Instant::now();
+        loop {
+            let mut line = String::new();
+            match rd.read_line(&mut line) {
+                Ok(0) | Err(_) => break,
+                Ok(_) => {
+                    la.store(t0.elapsed().as_secs() as usize, Ordering::Relaxed);
+                    if !line.starts_with("{\"t\":\"hb\"") {
+                        s.push_str(&line);
+                    }
+                }
+            }
+        }
         s
     });
     let t2 = std::thread::spawn(move || {
@@ -319,7 +340,8 @@ fn run_worker(prop: &str, tier: Tier, seed: u64, from: u64, to: u64, stride: u64
         match child.try_wait() {
             Ok(Some(s)) => break Some(s),
             Ok(None) => {
-                if start.elapsed().as_secs() > timeout_s {
+                let idle = (start.elapsed().as_secs() as usize).saturating_sub(last_activity.load(Ordering::Relaxed));
+                if start.elapsed().as_secs() > timeout_s || idle as u64 > stall_s {
                     let _ = child.kill();
                     let _ = child.wait();
                     break None;
@@ -357,7 +379,7 @@ fn run_worker(prop: &str, tier: Tier, seed: u64, from: u64, to: u64, stride: u64
     if !done {
         let Some(status) = status else {
             harness_error(&format!(
-                "worker {prop} [{from}..{to}) exceeded the {timeout_s}s watchdog (stuck schedule or livelock)\n{err}"
+                "worker {prop} [{from}..{to}) exceeded the watchdog ({timeout_s}s total / {stall_s}s without a finished unit; last progress: next unit {next}): stuck schedule, livelock or endless loop\n{err}"
             ));
         };
         // abnormal end: attribute through the crash file
